@@ -161,7 +161,9 @@ def opOf? : Term → Option Op
 def globalOf? : Term → Option GlobalCfg
   | .list [.atom "global", a, r, c] => do
       let confed ← asOpt? (fun
-        | .list [id, .list ms] => do pure ((← natLe? U32 id), (← ms.mapM (natLe? U32)))
+        | .list [id, .list ms] => do
+            let id ← natLe? U32 id
+            if id = 0 then none else pure (id, (← ms.mapM (natLe? U32)))
         | _ => none) c
       pure { asn := (← natLe? U32 a), rid := (← natLe? U32 r), confed := confed }
   | _ => none
@@ -171,7 +173,7 @@ def caseOf? : Term → Option Case
       pure (.neg (← capsOf? l) (← capsOf? r) (← taggedPairs? "sm" famOf? (natLe? 1048576) sm))
   | .list [.atom "contains", n, a] => do pure (.contains (← netOf? n) (← ipOf? a))
   | .list [.atom "hist", g, .list (.atom "groups" :: gs), .list (.atom "peers" :: ps), .list (.atom "ops" :: ops)] => do
-      pure (.hist (← globalOf? g) (← gs.mapM groupOf?) (← ps.mapM peerOf?) (← ops.mapM opOf?))
+      pure (.hist (← globalOf? g) (normGroups (← gs.mapM groupOf?)) (← ps.mapM peerOf?) (← ops.mapM opOf?))
   | _ => none
 
 /-! ### observations -/
